@@ -81,6 +81,10 @@ CHECKS = {
                 technique="same pass-transition system as C05 with the contract oracle per transition, iterated application to the fixpoint, and fault injection at the ONNX C-API boundary for the analysis passes",
                 text="Per transition: the in-place/functional identity rule, modified=False implies byte-identical serialisation, link invariant, topologically ordered graphs stay ordered, still serialisable, consumed values and graph outputs keep their names, repeated application reports no modification within |nodes|+|initializers|+8 rounds and then changes nothing. CheckerPass and ShapeInferencePass (two configurations each) run on models whose initializers lack type/shape, mix large and small tensors, or contain a LazyTensor that raises, with the underlying onnx call replaced by a raising callable or not: whenever the pass validates only, raises, or reports modified=False the complete public snapshot, initializer order and graph inputs must be unchanged.",
                 note="Pass objects are reused across models inside a worker (state must not leak between models)."),
+    "C18": dict(level="exploration", engine="E6-enum", design="4/C18",
+                technique="exhaustive enumeration of boundary cuts (input subset x output subset, by object and by name) over generated source graphs taken as Graph, GraphView and Function, against a brute-force backward closure and pinned-boundary evaluation; exhaustive capture-set combinations for the implicit-usage analysis",
+                text="Every source of the graph grammar (1 node: all cuts with up to 2 inputs and 2 outputs; 2 nodes: quick every fifth seed plus every seed with an If or a function call with |inputs|<=1, |outputs|=1, thorough all seeds with 2/2; mirrored-operator family; doubly nested If bodies capturing main-graph values) is cut in every way. A cut whose closure needs an uncovered non-initializer value must raise; otherwise the result must contain exactly the closure's nodes in source order, every needed initializer, the given boundary, share no graph/node/value object with the source, and - wrapped into a model and evaluated with the boundary inputs pinned to the values the source computes - produce the source's values at the outputs. analyze_implicit_usage is compared with a brute-force scope computation on every source and on all 1728 capture-set combinations of two sibling bodies of a list-of-graphs attribute, a body nested in the first sibling and a following single-graph attribute.",
+                note="Reference closure and interpreter (mc/evalproto.py) are part of the trusted base."),
 }
 
 NOT_YET = {}
@@ -122,7 +126,7 @@ def main():
              "kind_free_text": "explicit-state BFS over the real transition function; states are histories replayed on fresh real objects; dedup on canonical public snapshot"},
             {"name": "E1-seq", "path": "mc/props/c11.py", "serves_properties": ["C11", "C15"],
              "kind_free_text": "stateless enumeration of all event sequences up to a depth with trace monitors"},
-            {"name": "E6-enum", "path": "mc/props/", "serves_properties": ["C02", "C04", "C07", "C10", "C12", "C16", "C17"],
+            {"name": "E6-enum", "path": "mc/props/", "serves_properties": ["C02", "C04", "C07", "C10", "C12", "C16", "C17", "C18"],
              "kind_free_text": "small-scope exhaustive input/structure enumeration with independent reference oracles"},
             {"name": "E5-fsfault", "path": "mc/fsfault.py", "serves_properties": ["C08"],
              "kind_free_text": "file-system effect interception + exhaustive fault/crash/torn-write plans"},
